@@ -490,12 +490,14 @@ func handleMOTD(c *Client, e Event) {
 // a given channel. Optionally also obtains ident/host values, as well as
 // permissions for each user, depending on what capabilities are enabled.
 func handleNAMES(c *Client, e Event) {
-	if len(e.Params) < 1 {
+	if len(e.Params) < 3 {
 		return
 	}
 
+	c.state.Lock()
 	channel := c.state.lookupChannel(e.Params[2])
 	if channel == nil {
+		c.state.Unlock()
 		return
 	}
 
@@ -505,7 +507,6 @@ func handleNAMES(c *Client, e Event) {
 	var ok bool
 	var s *Source
 
-	c.state.Lock()
 	for i := 0; i < len(parts); i++ {
 		modes, nick, ok = parseUserPrefix(parts[i])
 		if !ok {
